@@ -74,6 +74,10 @@ CHECKS = {
    "bounded-exhaustive enumeration of plans; reversible ones are executed up and down on a real SQLite engine and the catalogue compared; down files of all formatters compared with the reverse statements",
    "The C01 pair space x 2 indent settings: Reversible must hold exactly when every schema-changing statement has a reverse, a table rebuild is never reversible, the down part written by each of the 5 third-party formatters equals the reverse statements in reverse change order (per changeset for Liquibase), and for every reversible plan up followed by down on the real engine restores the catalogue and leaves no atlas diff in either direction.",
    "Engine execution is SQLite only; MySQL/PostgreSQL plans are covered for the flag and down-file parts by the planner-level checks."),
+ "C18": ("model_checking",
+   "explicit-state BFS over schema-evolution histories (canonical schema model as state); every history is materialised as a migration directory and analysed by the real `atlas migrate lint` against a real SQLite dev database, judged by a reference model of what each file destroys",
+   "BFS to depth 2 (thorough 3) over 13 evolutions (additive, destructive by DROP / ALTER DROP COLUMN / table rebuild, non-destructive rebuilds, virtual-column drop, temporary table/column inside one file, rebuild followed by DROP TABLE, two rebuilds in one file): the last file of each history is hand-written SQL and, where expressible, also produced by the real `atlas migrate diff`; for every --latest N the real lint must exit non-zero with DS102/DS103 positioned on the causing statement for exactly the files inside the window that remove a pre-existing table or non-virtual column, and report no DS1xx elsewhere.",
+   "SQLite dev database; evolutions are drawn from the stated alphabet (not random schemas)."),
  "C19": ("exploration",
    "bounded-exhaustive enumeration of exclude patterns on a real SQLite engine against a reference of the glob semantics, and of all subsets of skippable change kinds through the three real differs against the filtered unskipped diff",
    "(a) every pattern table[.child][type selector] from a 10 x 8 x 9 grid (thorough: every unordered pair of patterns) is applied through InspectSchema and InspectRealm on a real SQLite database with colliding names; every table, column, index, foreign key and check must be absent iff the reference (path.Match + selectors) says a pattern matches it. (b) for MySQL, PostgreSQL and SQLite differs a change set with every skippable kind at every nesting level is diffed under all 2^15 subsets of the policy kinds; the result must equal the unskipped diff with those kinds filtered out recursively (empty ModifyTable/ModifySchema vanish).",
